@@ -1160,6 +1160,8 @@ template <class D> static void part_a_dom(Ctx& c) {
   D x0(x), y0(y), z0(z);
   bool nontriv = !x0.is_empty() && !x0.is_universe();
   { bool nodis = false; if constexpr (K == K_PPS) nodis = x0.is_empty();
+    // Pointset_Powerset::intersection_assign documents no exception for dimension-incompatible arguments: outside "documented precondition"
+    if (K == K_PPS && r.op == "intersection_assign.dim") { c.tag("undocumented rejection: not judged"); return; }
     if (const char* id = a_known(K, r.op, x0.is_empty(), nodis, z0.is_empty())) if (kf(id)) { c.excluded(id); c.log << "  (class of known finding " << id << ": call not made)\n"; return; } }
   std::string what; int got = thrown_by(r.call, what);
   c.check("a.threw" + sfx, got != X_NONE, [&] { return std::string(dn) + "::" + r.op + ": the call violating the precondition returned normally (documented: " + xname(r.expect) + ")"; });
